@@ -904,10 +904,11 @@ func (u *Unit) evalCall(st *State, env *SpecEnv, e *Spec) (Val, error) {
 		a, ok1 := lit(as[0])
 		b, ok2 := lit(as[1])
 		if !ok1 || !ok2 {
+			// not a literal: nothing is known about it - neither the fact nor its negation
 			if e.Name == "litcontains" {
-				return boolVal("false"), nil
+				return boolVal(u.fresh(st, "nonlit", "Bool")), nil
 			}
-			return intVal("(- 1)"), nil
+			return intVal(u.fresh(st, "nonlit", "Int")), nil
 		}
 		switch e.Name {
 		case "litcontains":
